@@ -13,11 +13,11 @@ Lines (tab separated):
   lend.init        <state>
   lend.op <name> args… <outcome> <state>                         -- outcome ∈ ok err err:basic panic
   lend.handover borrowId newInterest <outcome> <state>           -- the V2 liquidation hand-over (own trace kind: own call site)
-<state> := ctr(lendCtr,borrowCtr)  L  B  S  K  P   (six fields, records `|`-separated, record fields `:`-separated)
-  L id:owner:pool:asset:amountIn:avail
+<state> := ctr(lendCtr,borrowCtr)  L  B  S  K  P  F   (seven fields, records `|`-separated, record fields `:`-separated)
+  L id:owner:pool:asset:amountIn:avail:app
   B id:lendingId:pairId:inDenom:amountIn:outDenom:amountOut:interest:stable:liq:brDenom:bridged:reserveInt
   S pool:asset:totalLend:totalBorrowed:totalStable:totalInterest
-  K acct:denom:amount        P asset:twa
+  K acct:denom:amount        P asset:twa        F killedApps/depreciatedPools (comma lists)
 ExtB := `-` (error) | `!` (panic) | dI:dR.   The model is re-synchronised to the real state after every line.
 
 Monitors (evaluated on the REAL state projection): total_lend total_borrowed total_stable ltv ltv_exact pool_funds pledged_safe, and
@@ -43,7 +43,8 @@ def splitOnNE (s : String) (sep : String) : List String := if s = "" then [] els
 
 def parseLend (r : String) : Option Lend :=
   match (r.splitOn ":").mapM parseInt? with
-  | some [id, o, p, a, ai, av] => some { id := id.toNat, owner := o.toNat, pool := p.toNat, asset := a.toNat, amountIn := ai, avail := av }
+  | some [id, o, p, a, ai, av, app] =>
+    some { id := id.toNat, owner := o.toNat, pool := p.toNat, asset := a.toNat, amountIn := ai, avail := av, app := app.toNat }
   | _ => none
 
 def parseBorrow (r : String) : Option Borrow :=
@@ -70,7 +71,7 @@ def parsePrice (r : String) : Option (Nat × Nat) :=
 
 def parseState (f : List String) : Option State :=
   match f with
-  | [ctr, l, b, s, k, p] => do
+  | [ctr, l, b, s, k, p, fl] => do
     let c ← parseNatList ctr
     let (lc, bc) ← match c with | [x, y] => some (x, y) | _ => none
     let ls ← (splitOnNE l "|").mapM parseLend
@@ -78,7 +79,10 @@ def parseState (f : List String) : Option State :=
     let ss ← (splitOnNE s "|").mapM parseStats
     let ks ← (splitOnNE k "|").mapM parseBal
     let ps ← (splitOnNE p "|").mapM parsePrice
-    pure { lends := ls, borrows := bs, stats := ss, bank := ks, lendCtr := lc, borrowCtr := bc, prices := ps }
+    let (kl, dp) ← match fl.splitOn "/" with
+      | [a, b] => do pure ((← parseNatList a), (← parseNatList b))
+      | _ => none
+    pure { lends := ls, borrows := bs, stats := ss, bank := ks, lendCtr := lc, borrowCtr := bc, prices := ps, killed := kl, depPools := dp }
   | _ => none
 
 def parseExtB (s : String) : Option ExtB :=
@@ -134,6 +138,8 @@ def parseOp (name : String) (a : List String) : Option Op :=
   | "setPrice", [asset, twa] => do
     let t ← parseNat? twa
     pure (.setPrice (← parseNat? asset) (if t = 0 then none else some t))
+  | "setKill", [app, on] => do pure (.setKill (← parseNat? app) (← parseBool? on))
+  | "setDepreciated", [pool] => do pure (.setDepreciated (← parseNat? pool))
   | "handover", [id, ni] => do pure (.handover (← parseNat? id) (← parseInt? ni))
   | _, _ => none
 
@@ -144,7 +150,7 @@ def insertBy {α} (lt : α → α → Bool) (x : α) : List α → List α
   | y :: ys => if lt x y then x :: y :: ys else y :: insertBy lt x ys
 def sortBy {α} (lt : α → α → Bool) (l : List α) : List α := l.foldr (insertBy lt) []
 
-def showLend (l : Lend) : String := s!"{l.id}:{l.owner}:{l.pool}:{l.asset}:{l.amountIn}:{l.avail}"
+def showLend (l : Lend) : String := s!"{l.id}:{l.owner}:{l.pool}:{l.asset}:{l.amountIn}:{l.avail}:{l.app}"
 def showBorrow (b : Borrow) : String :=
   s!"{b.id}:{b.lendingId}:{b.pairId}:{b.inDenom}:{b.amountIn}:{b.outDenom}:{b.amountOut}:{b.interest}:{b.stable}:{b.liq}:{b.brDenom}:{b.bridged}:{b.reserveInt}"
 def showStats (s : Stats) : String := s!"{s.pool}:{s.asset}:{s.totalLend}:{s.totalBorrowed}:{s.totalStable}:{s.totalInterest}"
@@ -156,6 +162,7 @@ structure Canon where
   stats : String
   bank : String
   prices : String
+  flags : String
   deriving DecidableEq
 
 def canon (cfg : Cfg) (s : State) : Canon :=
@@ -167,7 +174,8 @@ def canon (cfg : Cfg) (s : State) : Canon :=
     borrows := "|".intercalate ((sortBy (fun a b => a.id < b.id) s.borrows).map showBorrow),
     stats := "|".intercalate ((sortBy (fun a b => a.pool < b.pool || (a.pool == b.pool && a.asset < b.asset)) s.stats).map showStats),
     bank := "|".intercalate (bal.map fun e => s!"{e.1.1}:{e.1.2}:{e.2}"),
-    prices := "|".intercalate ((sortBy (fun a b => a.1 < b.1) s.prices).map fun e => s!"{e.1}:{e.2}") }
+    prices := "|".intercalate ((sortBy (fun a b => a.1 < b.1) s.prices).map fun e => s!"{e.1}:{e.2}"),
+    flags := showNatList (sortBy (fun a b => a < b) s.killed.eraseDups) ++ "/" ++ showNatList (sortBy (fun a b => a < b) s.depPools.eraseDups) }
 
 def diffCanon (m i : Canon) : List String :=
   (if m.ctr = i.ctr then [] else [s!"ctr model={m.ctr} impl={i.ctr}"]) ++
@@ -175,7 +183,8 @@ def diffCanon (m i : Canon) : List String :=
   (if m.borrows = i.borrows then [] else [s!"borrows model={m.borrows} impl={i.borrows}"]) ++
   (if m.stats = i.stats then [] else [s!"stats model={m.stats} impl={i.stats}"]) ++
   (if m.bank = i.bank then [] else [s!"bank model={m.bank} impl={i.bank}"]) ++
-  (if m.prices = i.prices then [] else [s!"prices model={m.prices} impl={i.prices}"])
+  (if m.prices = i.prices then [] else [s!"prices model={m.prices} impl={i.prices}"]) ++
+  (if m.flags = i.flags then [] else [s!"flags model={m.flags} impl={i.flags}"])
 
 /-! ### monitors on the real state -/
 
@@ -349,9 +358,9 @@ def handleOp (st : St) (seq name : String) (args : List String) (outcome : Strin
 
 def opLine (st : St) (seq name : String) (rest : List String) : St × List String :=
   let n := rest.length
-  if n < 7 then (st, [s!"BAD\t{seq}\top fields"]) else
-  let args := rest.take (n - 7)
-  match rest.drop (n - 7) with
+  if n < 8 then (st, [s!"BAD\t{seq}\top fields"]) else
+  let args := rest.take (n - 8)
+  match rest.drop (n - 8) with
   | outcome :: implF => handleOp st seq name args outcome implF
   | [] => (st, [s!"BAD\t{seq}\top fields"])
 
@@ -392,7 +401,7 @@ def handle (st : St) (seq : String) (f : List String) : St × List String :=
     match parseState rest with
     | some s =>
       -- the model's genesis must be the real genesis: zero totals for every (pool, asset)
-      let g := Comdex.Lend.init st.cfg s.bank s.prices
+      let g := { Comdex.Lend.init st.cfg s.bank s.prices with killed := s.killed, depPools := s.depPools }
       let d := (diffCanon (canon st.cfg g) (canon st.cfg s)).map fun x => s!"DIFF\t{seq}\tinit\t{x}"
       ({ st with s := s }, d)
     | none => bad "init state"
